@@ -961,7 +961,48 @@ def field_summaries(F, struct_suffix):
 
 
 SANITISERS = ("to_pascal_case", "to_snake_case", "rename_keywords", "to_lowercase", "to_camel_case", "to_class_case",
-              "escape_default", "escape_debug")
+              "escape_default", "escape_debug", "as_identifier", "<self-guard>")
+
+
+def spine(nf):
+    """(names, root): the functions applied on the way from the root value to `nf`, outermost first. Looks through
+    Option/Result payloads, map closures, loop elements, single-hole formats (`<literal-ident-prefix>` when the format starts
+    with identifier characters) and guard conditionals whose other branch is a literal (`<self-guard>` when the guard tests
+    for "Self")."""
+    import re as _re
+    out = []
+    cur = nf
+    for _ in range(24):
+        if not isinstance(cur, tuple):
+            break
+        if cur[0] == "call" and isinstance(cur[1], str) and cur[2]:
+            out.append(cur[1].rsplit("::", 1)[-1])
+            cur = cur[2][0]
+            continue
+        if cur[0] == "payload":
+            cur = cur[2]
+            continue
+        if cur[0] == "map":
+            cur = cur[2]
+            continue
+        if cur[0] == "format":
+            holes = [p for p in cur[1] if p[0] == "hole"]
+            if len(holes) == 1:
+                first = cur[1][0]
+                if first[0] == "lit" and _re.match(r"^[A-Za-z_][A-Za-z0-9_]*$", first[1]):
+                    out.append("<literal-ident-prefix>")
+                cur = holes[0][1]
+                continue
+        if cur[0] == "ifelse" and isinstance(cur[2], tuple) and isinstance(cur[3], tuple):
+            lit_then = not [r for r in nf_roots(cur[2]) if r[0] != "lit"]
+            lit_else = not [r for r in nf_roots(cur[3]) if r[0] != "lit"]
+            if lit_then != lit_else:
+                if "'Self'" in nf_str(cur[1]):
+                    out.append("<self-guard>")
+                cur = cur[3] if lit_then else cur[2]
+                continue
+        break
+    return out, cur
 
 
 class CallExpander:
@@ -1021,14 +1062,6 @@ class CallExpander:
 
 
 def sanitiser_chain(n):
-    """(chain, root): sanitiser functions applied around the root, outermost first."""
-    chain = []
-    cur = n
-    while isinstance(cur, tuple) and cur[0] == "call" and isinstance(cur[1], str) and cur[2]:
-        name = cur[1].rsplit("::", 1)[-1]
-        if name in SANITISERS:
-            chain.append(name)
-            cur = cur[2][0]
-            continue
-        break
-    return chain, cur
+    """(chain, root): the sanitisers (members of SANITISERS) on the spine of n, outermost first, and the spine's root."""
+    names, root = spine(n)
+    return [x for x in names if x in SANITISERS], root
